@@ -278,6 +278,7 @@ type Obligation struct {
 	Carved string // known-finding id whose carve-out hypothesis was used
 	Inputs []string `json:"-"` // SMT terms whose model values describe the failing input
 	SolverOutput string
+	Replay *ReplayResult
 }
 
 // queries builds one SMT script per assertion of an executed function.
